@@ -278,4 +278,16 @@ def split(items, n):
 
 
 def cleanup_run_dir():
-    shutil.rmtree(RUN_DIR, ignore_errors=True)
+    """Remove scratch directories left behind by runs that were killed (older than 6 h).
+    Live runs remove their own scratch; concurrent checks must not disturb each other."""
+    try:
+        now = time.time()
+        for name in os.listdir(RUN_DIR):
+            path = os.path.join(RUN_DIR, name)
+            try:
+                if now - os.path.getmtime(path) > 6 * 3600:
+                    shutil.rmtree(path, ignore_errors=True)
+            except OSError:
+                pass
+    except OSError:
+        pass
